@@ -7,7 +7,7 @@
 EXTENDS SdoBlock, Json, IOUtils
 
 KInit(t) == [op |-> "none", bd |-> BdIdle, bu |-> BuIdle, acc |-> <<>>, committed |-> NoVal,
-             dist |-> FALSE, ci |-> 0, busy |-> FALSE, srvdead |-> FALSE, noend |-> FALSE, corrupt |-> FALSE, needTA |-> FALSE]
+             dist |-> FALSE, ci |-> 0, busy |-> FALSE, srvdead |-> FALSE, noend |-> FALSE, corrupt |-> FALSE, needTA |-> FALSE, lossonly |-> TRUE]
 KShow(st) == [op |-> st.op, bd |-> st.bd, bu |-> st.bu, acclen |-> Len(st.acc), dist |-> st.dist,
               busy |-> st.busy, srvdead |-> st.srvdead,
               committed |-> IF st.committed = NoVal THEN -1 ELSE Len(st.committed)]
@@ -20,6 +20,7 @@ ClearTA(st, q) == IF IsTimeoutAbort(q) THEN [st EXCEPT !.needTA = FALSE] ELSE st
 \* a disturbed request/response exchange: the server acted on the request, the client got e.dlv
 Disturbed(st, e) == [st EXCEPT !.dist = st.dist \/ e.fault # "none",
                                !.needTA = st.needTA \/ e.fault = "drop",
+                               !.lossonly = st.lossonly /\ e.fault = "none",
                                \* an abort frame is the server's own: it has left the transfer
                                !.srvdead = st.srvdead \/ e.fault = "abort"]
 
@@ -85,6 +86,7 @@ BdAckEv(st, e) ==
     ELSE IF bd.ph \notin {"waitack", "blk"} THEN Bad(st, "HARNESS: acknowledge in the wrong phase")
     ELSE Good([st EXCEPT !.bd = BdAfterAck(bd, e.r), !.srvdead = (e.kind = "abort"),
                          !.needTA = st.needTA \/ e.kind = "drop",
+                         !.lossonly = st.lossonly /\ e.kind = "none",
                          !.dist = st.dist \/ e.lost \/ e.kind # "none" \/ (bd.lossBlk > 0 /\ bd.fin) \/ bd.losses > 1
                                   \/ (bd.ph = "blk")])
 
@@ -127,6 +129,9 @@ UlSseg(st, e, value) ==
     LET bu == st.bu IN
     IF ~BuServerSegLegal(bu, value, e.r) THEN Bad(st, "HARNESS: reference server segment malformed")
     ELSE Good([st EXCEPT !.bu = BuOnSeg(bu, e.r, e.how), !.dist = st.dist \/ e.how # "ok" \/ e.kind # "none",
+                         \* a dropped segment is normally repaired; a call that gives up instead owes the abort
+                         !.needTA = st.needTA \/ e.kind = "drop",
+                         !.lossonly = st.lossonly /\ e.how \in {"ok", "lost"} /\ e.kind = "none",
                          \* content damage (as opposed to loss, which the sequence numbers reveal)
                          !.corrupt = st.corrupt \/ e.how \notin {"ok", "lost"}])
 
@@ -138,6 +143,7 @@ UlSend(st, e, value) ==
        ELSE Good([st EXCEPT !.bu = [bu EXCEPT !.ph = "endsent"], !.dist = st.dist \/ e.how # "ok" \/ e.kind # "none",
                             !.corrupt = st.corrupt \/ e.how \notin {"ok", "lost"},
                             !.needTA = st.needTA \/ e.kind = "drop",
+                            !.lossonly = st.lossonly /\ e.how = "ok" /\ e.kind = "none",
                             \* the delivered frame is not an end-of-block-upload frame at all
                             !.noend = (e.how = "wrongend")])
 
@@ -154,6 +160,8 @@ OnRet(st, e, data, value) ==
       THEN Bad(st, "block upload with CRC returned data that differs from the server's value")
     ELSE IF ~st.corrupt /\ e.data # value
       THEN Bad(st, "block upload returned data that differs from the server's value although segments were only lost, not damaged")
+    ELSE IF st.lossonly /\ st.bu.ph # "done"
+      THEN Bad(st, "block upload returned the value after a repaired loss but did not close the transfer")
     ELSE Good([st EXCEPT !.busy = FALSE])
 
 OnRaise(st, e) ==
